@@ -296,8 +296,8 @@ impl Property for C14 {
         let mut drv = Driver::new();
         for (k, (a, b)) in base_ids.iter().zip(ids.iter()).enumerate() {
             let (Some(fa), Some(fb)) = (a.as_ref().and_then(|id| ingest::fact_of(&base.space, id)), b.as_ref().and_then(|id| ingest::fact_of(&ing.space, id))) else { continue };
-            drv.arm(2 * k, "rt", "rt", &format!("base::{}", fa.ident));
-            drv.arm(2 * k + 1, "rt", "rt", &format!("with::{}", fb.ident));
+            drv.arm_expr(2 * k, "rt", format!("{{ use base::*; crate::rt::rt::<{}>(arg) }}", fa.ident));
+            drv.arm_expr(2 * k + 1, "rt", format!("{{ use with::*; crate::rt::rt::<{}>(arg) }}", fb.ident));
         }
         let gen_rs = format!("pub mod base {{\n{}\n}}\npub mod with {{\n{}\n}}\n", rb.text, r.text);
         let mut probes = vec![];
